@@ -20,3 +20,7 @@ def run(ctx) -> None:
     codec.rule_T1(ctx, "T1", only=("message",))   # unknown fields of a nested message travel inside bytes(sub): it must be encoded unconditionally
     ctx.rules_run.append("U4")
     decode.rule_S2(ctx, "U4")
+    ctx.rules_run.append("U7")
+    decode.rule_S1(ctx, "U7")      # an unknown field at the end of a sized message does not make the reader run into what follows
+    ctx.rules_run.append("U6")
+    decode.rule_M2b(ctx, "U6")     # any field number of a newer schema (1 .. 2**29-1) is readable
